@@ -32,7 +32,10 @@ try:
     got_attrs = None; got_svg = None
     if reader == 'svg2paths2': out, got_attrs, got_svg = svg2paths2(fn)
     elif reader == 'Document': out = Document(fn).paths(); got_attrs = [dict(p.element.attrib) for p in out]
-    else: out = SaxDocument(fn).flatten_all_paths()
+    else:
+        sd_ = SaxDocument(fn); out = sd_.flatten_all_paths()
+        if len(sd_.tree) == len(out): got_attrs = [dict(e) for e in sd_.tree]
+        got_svg = dict(sd_.root_values)
 finally:
     os.remove(fn)
 if len(out) != len(paths): REPRODUCED('%s -> %s: %d paths written, %d read back' % (writer, reader, len(paths), len(out)))
